@@ -285,8 +285,10 @@ pub fn eval(c: &Case) -> Vec<(String, String)> {
     if front == "nb" {
         let off = c.dev.offset_ms as i64;
         if o.times.len() >= 3 {
+            // (the millisecond clock is a u32 that wraps after 49.7 days: all times are modulo 2^32)
+            let m = |x: i64| x.rem_euclid(1 << 32);
             let t1 = o.times[0] as i64;
-            let ok1 = t1 == (ts + want_d1) as i64 + off || t1 == (ts + want_d1) as i64 - off;
+            let ok1 = t1 == m((ts + want_d1) as i64 + off) || t1 == m((ts + want_d1) as i64 - off);
             if !ok1 {
                 v.push((
                     format!("C10|nb|rx1-time|{kind}"),
@@ -295,7 +297,7 @@ pub fn eval(c: &Case) -> Vec<(String, String)> {
             }
             // times: [t1, close1, t2, close2]
             let t2 = o.times[2] as i64;
-            if t2 != t1 + 1000 {
+            if t2 != m(t1 + 1000) {
                 v.push((format!("C10|nb|rx2-time|{kind}"), format!("RX2 requested at {t2} ms, RX1 at {t1} ms (must be RX1 + 1000 ms)")));
             }
         } else {
@@ -358,6 +360,18 @@ pub fn run(tier: Tier, replay: Option<&str>) {
                         if front != "nb" && offs > 5 && ts == 0 {
                             // async boards may declare a window buffer that differs from the lead time
                             dev.duration_ms = 5;
+                            cases.push(Case { rxdelay: Some(del), tx_done_ms: ts, ..base(dev) });
+                        }
+                    }
+                }
+            }
+            // P2b (nb): TX end times in the upper half of the u32 millisecond clock and next to its wrap
+            if front == "nb" {
+                for del in [1u8, 2, 15] {
+                    for offs in [0i32, 50] {
+                        for ts in [0x7FFF_FC00u32, 0x7FFF_FFFF, 0x8000_0000, 3_000_000_000, 0xFFFF_F000, 0xFFFF_FFFF] {
+                            let mut dev = abp.clone();
+                            dev.offset_ms = offs;
                             cases.push(Case { rxdelay: Some(del), tx_done_ms: ts, ..base(dev) });
                         }
                     }
@@ -440,7 +454,7 @@ pub fn run(tier: Tier, replay: Option<&str>) {
     let coverage = json!({
         "evaluations": ctx.evals(),
         "distinct_nontrivial": nontrivial.load(Ordering::Relaxed),
-        "rule": "eight full sub-products per region and front-end (nb, async, async+Class C), each case a fresh real device brought into the configuration by authentic RXParamSetupReq / RXTimingSetupReq / DlChannelReq downlinks and set_datarate: (P1) every region-defined uplink data rate x RX1DROffset 0..7 x first RNG draw (all 64 for the 72-channel plans); (P2) RXTimingSetupReq delay 0..15 x board offset/lead {0,15,50,100} x TX end time; (P3) all 16 RX2 data rate values x 2 frequencies x lowest/highest uplink rate; (P4) DlChannelReq on channels 0..3 x 2 frequencies x draws; (P5) joins under join-bias settings x draws; (P6, nb) set_datarate between TX and the windows; (P7) a re-join on a default channel after DlChannelReq remapped its downlink frequency; (P8) NewChannelReq, DlChannelReq, then a NewChannelReq redefining the same channel. non-trivial = cases with an installed override or a join",
+        "rule": "eight full sub-products per region and front-end (nb, async, async+Class C), each case a fresh real device brought into the configuration by authentic RXParamSetupReq / RXTimingSetupReq / DlChannelReq downlinks and set_datarate: (P1) every region-defined uplink data rate x RX1DROffset 0..7 x first RNG draw (all 64 for the 72-channel plans); (P2) RXTimingSetupReq delay 0..15 x board offset/lead {0,15,50,100} x TX end time; (P2b, nb) TX end times around 2^31 ms and the 2^32 ms wrap of the clock x delay x offset; (P3) all 16 RX2 data rate values x 2 frequencies x lowest/highest uplink rate; (P4) DlChannelReq on channels 0..3 x 2 frequencies x draws; (P5) joins under join-bias settings x draws; (P6, nb) set_datarate between TX and the windows; (P7) a re-join on a default channel after DlChannelReq remapped its downlink frequency; (P8) NewChannelReq, DlChannelReq, then a NewChannelReq redefining the same channel. non-trivial = cases with an installed override or a join",
         "samples": [serde_json::to_value(&cases[0]).unwrap(), serde_json::to_value(&cases[cases.len() / 2]).unwrap(), serde_json::to_value(cases.last().unwrap()).unwrap()],
         "exhaustive": true,
         "regions": regions,
